@@ -321,6 +321,7 @@ class Ctx:
                     self.A.trace_generic(0.0, 0.5, 0.0, 0.5, wl0)
                     self.A.trace(0.0, 1.0, wl0, 6, 'line_y')
                     self.A.paraxial.EPL(); self.A.paraxial.f2(); self.A.paraxial.chief_ray()
+                    self.A.update_paraxial()      # stores per-surface semi-apertures of the lens as it is NOW (stale after the edit)
                     SpotDiagram(self.A, num_rings=2).rms_spot_radius()
                 except Exception:
                     pass        # whatever the first use does is not judged; the analysis after the edit is
